@@ -583,6 +583,19 @@ fn install_abort_handler(path: &std::path::Path) {
         std::ptr::copy_nonoverlapping(bytes.as_ptr(), dst, bytes.len());
         *dst.add(bytes.len()) = 0;
         libc::signal(libc::SIGABRT, on_abort as *const () as usize);
+        // A wild read or write (SIGSEGV / SIGBUS: e.g. a store into a caller's read-only buffer),
+        // or an illegal instruction, is handled the same way, on an alternate stack so that a
+        // stack overflow is survivable too.
+        static mut ALT_STACK: [u8; 1 << 16] = [0; 1 << 16];
+        let ss = libc::stack_t { ss_sp: std::ptr::addr_of_mut!(ALT_STACK) as *mut libc::c_void, ss_flags: 0, ss_size: 1 << 16 };
+        libc::sigaltstack(&ss, std::ptr::null_mut());
+        for sig in [libc::SIGSEGV, libc::SIGBUS, libc::SIGILL, libc::SIGFPE] {
+            let mut sa: libc::sigaction = std::mem::zeroed();
+            sa.sa_sigaction = on_abort as *const () as usize;
+            sa.sa_flags = libc::SA_ONSTACK;
+            libc::sigemptyset(&mut sa.sa_mask);
+            libc::sigaction(sig, &sa, std::ptr::null_mut());
+        }
     }
 }
 
@@ -658,8 +671,9 @@ fn work_dir(ctx: &Ctx) -> PathBuf {
         .parent()
         .map(|p| p.to_path_buf())
         .unwrap_or_else(|| PathBuf::from("."));
+    let suffix = std::env::var("VERIF_WORK_SUFFIX").map(|s| format!("-{}", s)).unwrap_or_default();
     base.join("work")
-        .join(format!("{}-{}-{}", ctx.engine, ctx.prop, ctx.tier.name()))
+        .join(format!("{}-{}-{}{}", ctx.engine, ctx.prop, ctx.tier.name(), suffix))
 }
 
 pub fn main_entry(engine: Engine) -> ! {
@@ -669,6 +683,33 @@ pub fn main_entry(engine: Engine) -> ! {
     if let Some(path) = ctx.replay.clone() {
         let text = std::fs::read_to_string(&path)
             .unwrap_or_else(|e| machinery_failure(&format!("cannot read replay {:?}: {}", path, e)));
+        if let Some(spec) = field(&text, "rerun-worker") {
+            // the process dies only in the heap state its worker had built up: re-run that worker's share
+            let tier = field(&text, "tier").unwrap_or("quick").to_string();
+            let exe = std::env::current_exe().unwrap_or_else(|e| machinery_failure(&format!("{}", e)));
+            std::env::set_var("VERIF_WORK_SUFFIX", "replay");
+            let dir = work_dir(&ctx);
+            let _ = std::fs::remove_dir_all(&dir);
+            let _ = std::fs::create_dir_all(&dir);
+            let status = std::process::Command::new(&exe)
+                .args(["--prop", &ctx.prop, "--tier", &tier, "--worker", spec.trim()])
+                .env("VERIF_WORK_SUFFIX", "replay")
+                .stdout(std::process::Stdio::null())
+                .stderr(std::process::Stdio::null())
+                .status();
+            let _ = std::fs::remove_dir_all(&dir);
+            match status.map(|s| s.code()) {
+                Ok(Some(ABORT_EXIT_CODE)) | Ok(None) | Ok(Some(134)) => {
+                    println!("REPLAY reproduces the violation: worker {} dies again", spec.trim());
+                    println!("VIOLATION property={} replay={}", ctx.prop, path.display());
+                    std::process::exit(1);
+                }
+                other => {
+                    println!("REPLAY passes on this tree: worker {} finished with {:?}", spec.trim(), other);
+                    std::process::exit(0);
+                }
+            }
+        }
         if engine.decode_breadcrumb.is_some() {
             // an abort while replaying is the violation reproducing itself
             let marker = PathBuf::from(format!("{}.abort-marker", path.display()));
@@ -730,12 +771,9 @@ pub fn main_entry(engine: Engine) -> ! {
             Err(e) => failed.push(format!("worker {}: {}", i, e)),
         }
     }
-    if !failed.is_empty() {
-        machinery_failure(&failed.join("; "));
-    }
     let mut total = Report::new();
     for i in 0..n {
-        if aborted.contains(&i) {
+        if aborted.contains(&i) || failed.iter().any(|f| f.starts_with(&format!("worker {} ", i)) || f.starts_with(&format!("worker {}:", i))) {
             continue;
         }
         match Report::deserialize(&dir, i) {
@@ -743,13 +781,17 @@ pub fn main_entry(engine: Engine) -> ! {
             Err(e) => machinery_failure(&format!("cannot read worker {} report: {}", i, e)),
         }
     }
-    // A worker that aborted inside the code under test left a breadcrumb: the execution in
-    // progress.  It is replayed in a fresh child; if that child aborts (or reports the violation)
-    // again it is a verdict, otherwise a machinery failure.
+    // A worker that died inside the code under test (abort, SIGSEGV, ...) left a breadcrumb: the
+    // execution in progress.  It is replayed in a fresh child; if that child dies (or reports the
+    // violation) again it is a verdict.  If not, the death depends on the heap state the worker
+    // had built up (memory corruption): the worker's whole share is re-run, and dying again at the
+    // same execution is a verdict too.  Anything else is a machinery failure.
+    let mut unexplained: Vec<String> = Vec::new();
     for i in aborted {
         let crumb = std::fs::read(dir.join(format!("{}.abort", i))).unwrap_or_default();
         let Some((key, replay_text)) = (engine.decode_breadcrumb.unwrap())(&ctx, &crumb) else {
-            machinery_failure(&format!("worker {} aborted and its breadcrumb cannot be decoded", i));
+            unexplained.push(format!("worker {} died and its breadcrumb cannot be decoded", i));
+            continue;
         };
         let probe = dir.join(format!("{}.abort-replay.txt", i));
         if std::fs::write(&probe, format!("---\n{}\n", replay_text)).is_err() {
@@ -757,17 +799,53 @@ pub fn main_entry(engine: Engine) -> ! {
         }
         let status = std::process::Command::new(&exe).arg("--prop").arg(&ctx.prop).arg("--replay").arg(&probe).stdout(std::process::Stdio::null()).stderr(std::process::Stdio::null()).status();
         let reproduced = matches!(status.as_ref().map(|s| s.code()), Ok(Some(ABORT_EXIT_CODE)) | Ok(Some(1)) | Ok(Some(134)) | Ok(None));
+        let mut replay_text = replay_text;
+        let mut how = "";
         if !reproduced {
-            machinery_failure(&format!("worker {} aborted but the execution in progress does not abort again: {}", i, replay_text.replace('\n', " / ")));
+            // re-run the worker's whole share in its own work directory
+            std::env::set_var("VERIF_WORK_SUFFIX", format!("rerun{}", i));
+            let rdir = work_dir(&ctx);
+            std::env::remove_var("VERIF_WORK_SUFFIX");
+            let _ = std::fs::remove_dir_all(&rdir);
+            let _ = std::fs::create_dir_all(&rdir);
+            let rerun = std::process::Command::new(&exe)
+                .args(std::env::args().skip(1))
+                .arg("--worker")
+                .arg(format!("{}/{}", i, n))
+                .env("VERIF_WORK_SUFFIX", format!("rerun{}", i))
+                .stdout(std::process::Stdio::null())
+                .stderr(std::process::Stdio::null())
+                .status();
+            let crumb2 = std::fs::read(rdir.join(format!("{}.abort", i))).unwrap_or_default();
+            let _ = std::fs::remove_dir_all(&rdir);
+            let died_again = matches!(rerun.as_ref().map(|s| s.code()), Ok(Some(ABORT_EXIT_CODE)));
+            if !(died_again && crumb2 == crumb) {
+                unexplained.push(format!("worker {} died but neither the execution in progress alone nor a re-run of the worker's share dies again: {}", i, replay_text.replace('\n', " / ")));
+                continue;
+            }
+            how = " (only in the heap state left by the worker's earlier executions: the same death at the same execution when the worker's whole share is re-run; memory corruption)";
+            replay_text = format!("rerun-worker: {}/{}\ntier: {}\n{}", i, n, ctx.tier.name(), replay_text);
         }
         total.evaluations += 1;
         total.not_exhaustive = true;
-        total.note(format!("worker {} aborted inside the code under test; the rest of its share was not explored", i));
+        total.note(format!("worker {} died inside the code under test; the rest of its share was not explored", i));
         total.violation(Violation {
             key,
-            summary: format!("the process ABORTS (a non-unwinding panic: std's undefined-behaviour precondition check, or a panic while panicking) during: {}", replay_text.replace('\n', " / ")),
+            summary: format!("the process DIES (abort from a non-unwinding panic / std's undefined-behaviour precondition check, or SIGSEGV / SIGBUS from a wild access){} during: {}", how, replay_text.replace('\n', " / ")),
             replay_text,
         });
+    }
+    unexplained.extend(failed);
+    if !unexplained.is_empty() {
+        if total.violations.is_empty() {
+            machinery_failure(&unexplained.join("; "));
+        }
+        // violations found by the other workers are a verdict; the unexplained deaths are reported with them
+        total.not_exhaustive = true;
+        for u in &unexplained {
+            eprintln!("MACHINERY-NOTE: {}", u);
+            total.note(format!("not explored: {}", u));
+        }
     }
     let _ = std::fs::remove_dir_all(&dir);
     finish(&ctx, &engine, total)
